@@ -257,6 +257,52 @@ func genCase(rnd *rand.Rand, cfg genCfg, id int) *Case {
 		c.Nodes = append([]Node{{Title: "Intro", Tracking: []string{"", "never"}[rnd.Intn(2)], Body: c.addBody(intro)}}, c.Nodes...)
 		nn++
 	}
+	if cfg.CountJumps && rnd.Intn(2) == 0 {
+		// every visited / visited_count call of the program names its node through a computed argument
+		// (no node is named by a literal anywhere): "N" + "1", or a probe handing the name through
+		var rewrite func(e *Expr)
+		rewrite = func(e *Expr) {
+			if e == nil {
+				return
+			}
+			rewrite(e.A)
+			rewrite(e.L)
+			rewrite(e.R)
+			for _, a := range e.Args {
+				rewrite(a)
+			}
+			if e.K == "call" && (e.S == "visited" || e.S == "visited_count") && len(e.Args) == 1 && e.Args[0].K == "str" && len(e.Args[0].S) >= 2 {
+				t := e.Args[0].S
+				if rnd.Intn(3) == 0 {
+					e.Args[0] = eCall("p1", eBin("add", eStr(t[:1]), eStr(t[1:])))
+				} else {
+					e.Args[0] = eBin("add", eStr(t[:1]), eStr(t[1:]))
+				}
+			}
+		}
+		for bi := range c.Bodies {
+			for si := range c.Bodies[bi] {
+				st := &c.Bodies[bi][si]
+				rewrite(st.E)
+				rewrite(st.Cond)
+				for pi := range st.Text {
+					rewrite(st.Text[pi].E)
+				}
+				for oi := range st.Opts {
+					rewrite(st.Opts[oi].Cond)
+					for pi := range st.Opts[oi].Text {
+						rewrite(st.Opts[oi].Text[pi].E)
+					}
+				}
+				for ci := range st.Clauses {
+					rewrite(st.Clauses[ci].Cond)
+				}
+				for _, e := range st.Elems {
+					rewrite(e)
+				}
+			}
+		}
+	}
 	if cfg.Dispatch {
 		// at most two registrations per program, of names its script uses
 		used := map[string]bool{}
@@ -724,7 +770,9 @@ func (g *gen) cmdStmt() Stmt {
 			t := g.titles[r.Intn(len(g.titles))]
 			elems = append(elems, []*Expr{eCall("visited_count", eStr(t)), eCall("visited", eStr(t)), eCall("bump"),
 				eBin("add", eCall("visited_count", eStr(t)), eNum(1, 1)), eCall("p1", eCall("visited_count", eStr(g.titles[0]))),
-				eCall("late", eCall("visited_count", eStr(t)))}[r.Intn(6)])
+				eCall("late", eCall("visited_count", eStr(t))),
+				// a variable under a unary operator and nothing else that varies
+				eNeg(g.varOf("n")), eNot(g.varOf("b")), eNeg(eNeg(g.varOf("n")))}[r.Intn(9)])
 			continue
 		}
 		switch r.Intn(5) {
